@@ -352,6 +352,10 @@ def _gen_table(rng, names, used_tables, used_cnames, nc, thorough, family=None):
     }
     if rng.random() < 0.3:
         t["schema"] = names.ident("schema", set())
+        if rng.random() < 0.2:
+            # multi-part schema (database.owner, server.database.owner)
+            t["schema"] = rng.choice(["mydb.dbo", "srv.mydb.dbo", "My Db.dbo"])
+            names.log.append(["schema", "multipart", t["schema"]])
     if rng.random() < 0.3:
         t["comment"] = names.string("table_comment")
     if rng.random() < 0.08:
@@ -535,7 +539,9 @@ def gen_spec(rng, thorough=False):
             lc = [c["name"] for c in t["columns"]]
             # SQLAlchemy itself copies FKs through "schema.table.col" strings: no dots in the referent
             rc = [c["name"] for c in rt["columns"] if "." not in c["name"]]
-            if "." in rt["name"] or "." in (rt.get("schema") or "") or not rc:
+            # (a dot in the referent's *schema* is fine: SQLAlchemy joins all leading tokens into the schema, the
+            # multi-part "database.owner" form of SQL Server; only table / column names must be dot free)
+            if "." in rt["name"] or not rc:
                 continue
             n = min(n, len(lc), len(rc))
             fk = {
@@ -550,6 +556,10 @@ def gen_spec(rng, thorough=False):
                 "use_alter": rng.random() < 0.05,
                 "match": rng.choice([None, None, None, None, "FULL"]),
             }
+            if nc and fk["name"] is None and "." in (rt.get("schema") or ""):
+                # SQLAlchemy's own naming convention token %(referred_table_name)s cannot split a target in a multi-part
+                # schema ("too many values to unpack" while the MetaData is built): such a foreign key needs a name
+                fk["name"] = names.ident("constraint", used_cnames, plain=True)
             if rng.random() < 0.1:
                 fk["link_to_name"] = True
             elif rng.random() < 0.05:
@@ -1380,6 +1390,22 @@ def battery():
     for nc in (False, True):
         out.append(("expr-index-%s" % nc, spec([person], [{"kind": "create_table", "table": 0}] + [
             {"kind": "create_index", "table": 0, "index": i} for i in range(7)] + [{"kind": "drop_index", "table": 0, "index": 1}], naming_convention=nc)))
+    # foreign keys to tables that live in multi-part schemas (database.owner): the colspec has four or more tokens
+    acct = table("account", [col("id", primary_key=True), col("code")], schema="mydb.dbo")
+    acct3 = table("ledger", [col("id", primary_key=True)], schema="srv.mydb.dbo")
+
+    def fk(cols, reft, refcols, name=None):
+        return {"name": name, "cols": cols, "reftable": reft, "refcols": refcols, "ondelete": None, "onupdate": None, "deferrable": None,
+                "initially": None, "use_alter": False, "match": None}
+
+    for own in (None, "mydb.dbo", "other"):
+        inv = table("invoice", [col("id", primary_key=True), col("account_id"), col("ledger_id")], schema=own,
+                    fks=[fk(["account_id"], 0, ["id"], "fk_acct"), fk(["ledger_id"], 1, ["id"]), fk(["account_id"], 0, ["id"], "fk_ltn")])
+        inv["fks"][2]["link_to_name"] = True
+        out.append(("multipart-schema-%s" % own, spec([acct, acct3, inv], [
+            {"kind": "create_table", "table": 2}, {"kind": "create_fk", "table": 2, "constraint": 0},
+            {"kind": "create_fk", "table": 2, "constraint": 1}, {"kind": "drop_fk", "table": 2, "constraint": 0},
+            {"kind": "create_table", "table": 0}, {"kind": "drop_table", "table": 1}])))
     # PostgreSQL only: types with and without a dedicated renderer, inline and ALTER exclude constraints
     pg = table("evt", [col("id", primary_key=True), col("uid", "postgresql.UUID"), col("ip", "postgresql.INET"),
                        col("tags", "postgresql.ARRAY", targs={"item": {"t": "String", "args": {"length": 20}}}),
